@@ -12,6 +12,7 @@ that the decoders before the `fix:` commit do not have these properties.
 import ZoektModel.C11.Lemmas
 import ZoektModel.C11.DistLemmas
 import ZoektModel.C11.TOCLemmas
+import ZoektModel.C11.BtreeLemmas
 namespace ZoektModel.C11
 open ZoektModel
 
@@ -212,6 +213,24 @@ theorem tocLoop_total (f : File) (tags : List Bytes) (stop fuel : Nat) (st : Toc
 theorem readTOCSections_total (f : File) (tags : List Bytes) : Total (readTOCSections f tags) :=
   L.readTOCSections_total f tags
 
+/-! ### the b-tree of ngrams (index/btree.go), beyond a single leaf -/
+
+/-- **`node.insert` never indexes or slices out of range**: for every well-formed tree, every ngram, every option set
+    with `v ≥ 1` and fuel above the height; the result is well-formed and not higher -/
+theorem btree_insert_total (o : Bt.Opts) (hv : 1 ≤ o.v) (ng fuel : Nat) (t : Bt.Node) (hw : Bt.WF t) (hf : Bt.height t < fuel) :
+    ∃ t', Bt.insert o ng fuel t = some t' ∧ Bt.WF t' ∧ Bt.height t' ≤ Bt.height t :=
+  Bt.insert_total o hv ng fuel t hw hf
+
+/-- **`newBtreeIndex`'s insertion loop never panics**, for every list of ngrams in every order (a corrupt ngram
+    section is not sorted) and duplicates, and the tree it builds is well-formed -/
+theorem btree_build_total (o : Bt.Opts) (hv : 1 ≤ o.v) (ngs : List Nat) : ∃ t, Bt.build o ngs = some t ∧ Bt.WF t :=
+  Bt.build_total o hv ngs
+
+/-- **`btree.find` never panics** on the tree built from any ngram list -/
+theorem btree_find_total (o : Bt.Opts) (hv : 1 ≤ o.v) (ngs : List Nat) (q : Nat) :
+    ∃ t r, Bt.build o ngs = some t ∧ Bt.find q t 0 0 = some r :=
+  Bt.build_find_total o hv ngs q
+
 /-! ### distanceHitIterator (after the fix) -/
 
 /-- `next(limit)` makes progress: on an iterator that is not exhausted and whose head is `≤ limit` the measure
@@ -289,6 +308,7 @@ example : unmarshalDocSections [2, 1, 2] = .ok [1, 3] := by decide
 example : (openFile [0, 0, 0, 1]).isOkOrErr = true := by decide
 example : distRun [254, 255, 255, 255, 15] [100] 5 [] = .ok [4294967295] := by decide
 example : distRun [3, 4] [5, 4] 2 [3] = .ok [3, 7] := by decide
+example : (Bt.build ⟨4, 2⟩ [5, 1, 9, 3, 7, 2, 8, 6, 4, 0]).map Bt.leaves = some [3, 2, 3, 2] := by decide
 example : pIterRun [3, 2, 128] [2, 4, 9] = .ok [3, 3, 5, 4294967295] := by decide
 
 end ZoektModel.C11
